@@ -157,6 +157,7 @@ class ReadSetReader:
         reference,
         regions=None,
         restricted_genotypes: Optional[List[Genotype]] = None,
+        numeric_sample_id: Optional[int] = None,
     ) -> ReadSet:
         """
         Detect alleles and return a ReadSet object containing reads representing
@@ -188,7 +189,7 @@ class ReadSetReader:
         assert restricted_genotypes is None or len(restricted_genotypes) == len(variants)
         alignments = self._usable_alignments(chromosome, sample, regions)
         reads = self._alignments_to_reads(
-            alignments, variants, sample, reference, restricted_genotypes
+            alignments, variants, sample, reference, restricted_genotypes, numeric_sample_id
         )
         grouped_reads = self._group_reads(reads, self._supplementary_distance_threshold)
         readset = self._make_readset_from_grouped_reads(grouped_reads)
@@ -327,6 +328,7 @@ class ReadSetReader:
         sample,
         reference,
         restricted_genotypes: Optional[List[Genotype]],
+        numeric_sample_id: Optional[int] = None,
     ):
         """
         Convert BAM alignments to Read objects.
@@ -335,8 +337,11 @@ class ReadSetReader:
 
         Yield Read objects.
         """
-        # FIXME hard-coded zero
-        numeric_sample_id = 0 if sample is None else self._numeric_sample_ids[sample]
+        if sample is not None:
+            numeric_sample_id = self._numeric_sample_ids[sample]
+        elif numeric_sample_id is None:
+            # read groups are ignored and the caller did not say whose reads these are
+            numeric_sample_id = 0
         number_of_alignments = 0
         number_of_supplementary_alignments = 0
         if reference is not None:
